@@ -12,31 +12,31 @@ pub fn int_limbs(n: i64) -> Value {
 pub fn float_json(x: f64) -> Value {
     let bits: Vec<u64> = x.to_le_bytes().iter().map(|b| *b as u64).collect();
     if x.is_nan() {
-        return json!({"k":"float","c":"nan"});
+        return json!({"k":"float","c":"nan","m":0,"e":0});
     }
     if x.is_infinite() {
-        return json!({"k":"float","c": if x > 0.0 {"pinf"} else {"ninf"}});
+        return json!({"k":"float","c": if x > 0.0 {"pinf"} else {"ninf"},"m":0,"e":0});
     }
     if x == 0.0 {
         if x.is_sign_negative() {
-            return json!({"k":"float","c":"nzero"});
+            return json!({"k":"float","c":"nzero","m":0,"e":0});
         }
         return json!({"k":"float","c":"dy","m":0,"e":0});
     }
-    // m / 2^e with |m| <= 2^24 and 0 <= e <= 16, m odd unless e = 0
+    // m / 2^e with |m| <= 2^20 and 0 <= e <= 8 (the float model of spec/Values.tla)
     let mut e = 0;
     let mut y = x;
-    while e <= 16 {
-        if y.fract() == 0.0 && y.abs() <= 16_777_216.0 {
+    while e <= 8 {
+        if y.fract() == 0.0 && y.abs() <= 1_048_576.0 {
             return json!({"k":"float","c":"dy","m": y as i64, "e": e});
         }
-        if y.abs() > 16_777_216.0 {
+        if y.abs() > 1_048_576.0 * 256.0 {
             break;
         }
         y *= 2.0;
         e += 1;
     }
-    json!({"k":"float","c":"oom","bits":bits})
+    json!({"k":"float","c":"oom","m":0,"e":0,"bits":bits})
 }
 
 pub fn str_cps(s: &str) -> Value {
